@@ -93,7 +93,7 @@ func (k *Kernel) UDPInject(key string, payload []byte, from unix.Sockaddr) int {
 	if len(grp) == 0 {
 		return 0
 	}
-	f := grp[k.rng.Intn(len(grp))]
+	f := grp[k.Draw("udpgroup:"+key, len(grp))]
 	k.nextDgram++
 	f.udp.queue = append(f.udp.queue, Datagram{ID: k.nextDgram, Payload: append([]byte(nil), payload...), From: from})
 	f.wake()
@@ -152,7 +152,7 @@ func (k *Kernel) PeerConnect(key string, from unix.Sockaddr) (*Sock, error) {
 	if len(grp) == 0 {
 		return nil, unix.ECONNREFUSED
 	}
-	lf := grp[k.rng.Intn(len(grp))]
+	lf := grp[k.Draw("reuseport:"+key, len(grp))]
 	cli := k.newSock(lf.lst.isUnix, true)
 	srv := k.newSock(lf.lst.isUnix, false)
 	connectPair(cli, srv)
